@@ -10,7 +10,7 @@
    (no bound on their length), from a freshly constructed lifecycle
    [init cfg], for an arbitrary configuration [cfg]. *)
 From Coq Require Import ZArith List Bool String.
-From Verif Require Import C09.Model C09.Proofs gen.Gen_C09.
+From Verif Require Import C09.Model C09.Proofs gen.Gen_C09 gen.Gen_C09_impl C09.GenOk.
 Import ListNotations.
 Open Scope Z_scope.
 
@@ -174,3 +174,57 @@ Theorem c09_lock_check_sound :
       forall c, reach g cs c -> acquires g c = false /\ known g c = true.
 Proof. exact lock_check_sound_proof. Qed.
 Print Assumptions c09_lock_check_sound.
+
+(* ====================================================================== *)
+(* The same, about the functions GENERATED FROM THE SOURCE on every run.
+
+   gen/Gen_C09_impl.v is produced from operon_ai/state/telomere.py by translators/c09_gen.py: a record [gtel] of
+   the attributes Telomere really has and one Gallina function per method, each returning the new attributes, the
+   outcome (a value, or Raised for the ZeroDivisionError of length / max_operations) and the (old, new) pairs
+   handed to on_phase_change.  [gstep g t o] is one public call at clock value t; [tproj cfg s] is the object a
+   model state stands for. *)
+
+(* Refinement, call by call: on every state, configuration and operation the generated method computes exactly
+   the model's step - attributes, outcome and callback stream. *)
+Theorem c09_gen_step_is_model :
+  forall cfg s o,
+    gstep (tproj cfg s) (now s) o =
+    (tproj cfg (step_state depleted_f64 rate_hit_f64 current cfg s o),
+     step_out depleted_f64 rate_hit_f64 current cfg s o,
+     step_trans depleted_f64 rate_hit_f64 current cfg s o).
+Proof. exact gstep_ok. Qed.
+Print Assumptions c09_gen_step_is_model.
+
+(* ... hence over every history: final attributes and clock, and the whole callback stream. *)
+Theorem c09_gen_history_is_model :
+  forall ops cfg s,
+    gexec (tproj cfg s) (now s) ops =
+      (tproj cfg (exec depleted_f64 rate_hit_f64 current cfg s ops),
+       now (exec depleted_f64 rate_hit_f64 current cfg s ops)) /\
+    gstream (tproj cfg s) (now s) ops = stream depleted_f64 rate_hit_f64 current cfg s ops.
+Proof. exact gen_history_ok. Qed.
+Print Assumptions c09_gen_history_is_model.
+
+(* Legal transitions only, for the generated code: every pair the generated methods hand to on_phase_change,
+   over any history from any state, is an allowed transition. *)
+Theorem c09_gen_legal_transitions_stream :
+  forall cfg ops s,
+    Forall (fun t => allowed (fst t) (snd t) = true) (gstream (tproj cfg s) (now s) ops).
+Proof. exact gen_legal_stream. Qed.
+Print Assumptions c09_gen_legal_transitions_stream.
+
+(* TERMINATED is absorbing for the generated code under every history without reset. *)
+Theorem c09_gen_terminated_absorbing :
+  forall cfg ops s,
+    ph s = Terminated -> ~ In Reset ops -> t_ph (fst (gexec (tproj cfg s) (now s) ops)) = Terminated.
+Proof. exact gen_terminated_absorbing. Qed.
+Print Assumptions c09_gen_terminated_absorbing.
+
+(* Hayflick range for the generated code: from a freshly constructed object, after every history of valid calls
+   the remaining length is within [0, max_operations]. *)
+Theorem c09_gen_length_in_range :
+  forall cfg ops,
+    0 <= max_ops cfg -> Forall valid_op ops ->
+    0 <= t_len (fst (gexec (tproj cfg (init cfg)) (now (init cfg)) ops)) <= max_ops cfg.
+Proof. exact gen_length_in_range. Qed.
+Print Assumptions c09_gen_length_in_range.
